@@ -239,12 +239,66 @@ def stream_lifecycles(sim, r, orc):
     return st
 
 
+class DoneTagger:
+    """marks the datagrams that carry a HANDSHAKE_DONE frame (so that a schedule can lose exactly those)"""
+
+    def __init__(self):
+        self.built = {}
+
+    def before_api(self, sim, ep, name, args, kw):
+        if name == "datagrams_to_send":
+            self.built[ep.name] = []
+
+    def on_packet_built(self, sim, ep, epoch, pn, hdr, payload, outlen):
+        done = any(f.get("name") == "HANDSHAKE_DONE" for f in S.parse_payload(payload))
+        self.built.setdefault(ep.name, []).append((outlen, epoch, done))
+
+    def on_datagram_sent(self, sim, ep, d):
+        q, used, done = self.built.get(ep.name, []), 0, False
+        while q and used + q[0][0] <= len(d["data"]):
+            n, epoch, dn = q.pop(0)
+            used += n
+            done = done or dn
+            if epoch == "ONE_RTT":
+                break
+        d["has_done"] = done
+
+
+def reach_phase(sim, ep, phase):
+    """`confirmed`: both sides confirmed.  `complete`: the observed endpoint has completed the handshake
+    but every datagram that would confirm it (HANDSHAKE_DONE) is lost, now and later (on a server
+    complete and confirmed coincide)"""
+    if phase == "complete":
+        orig = sim.deliver
+
+        def deliver(d, from_addr=None):
+            if d.get("has_done") and d["dst"] is ep:
+                sim.log.append(f"lose #{d['id']} (HANDSHAKE_DONE)")
+                return
+            return orig(d, from_addr)
+        sim.deliver = deliver
+        for _ in range(200):
+            if ep.conn._handshake_complete and ep.peer.conn._handshake_complete and not sim.pending:
+                break
+            if sim.pending:
+                d = sim.pending.pop(0)
+                sim.now += 0.001
+                sim.deliver(d)
+            else:
+                advance(sim, 0.05)
+        return
+    sim.fair_phase(max_steps=200, done=lambda: sim.client.conn._handshake_confirmed
+                   and sim.server.conn._handshake_confirmed and not sim.pending)
+
+
 def run_scenario(seed, observe="server", mode="mixed", steps=120, monitors=()):
-    """returns (sim, observer, oracle, stuck_report)"""
+    """returns (sim, observer, oracle, stuck_report).  `mode` may carry a handshake phase: `train@complete`"""
     from .impl_ack import AckObserver
+    mode, _, phase = mode.partition("@")
+    phase = phase or "confirmed"
     obs = AckObserver()
     orc = AckOracle()
-    sim = S.Sim(seed, monitors=[obs, orc] + list(monitors))
+    sim = S.Sim(seed, monitors=[DoneTagger(), obs, orc] + list(monitors))
     r = sim.r
     ep = sim.server if observe == "server" else sim.client
     obs.attach(sim, ep)
@@ -257,8 +311,8 @@ def run_scenario(seed, observe="server", mode="mixed", steps=120, monitors=()):
             if not sim.adversarial_step(p_drop=0.2, p_dup=0.15, p_reorder=0.4, p_timer=0.2):
                 break
         return sim, obs, orc, []
-    sim.fair_phase(max_steps=200, done=lambda: sim.client.conn._handshake_confirmed
-                   and sim.server.conn._handshake_confirmed and not sim.pending)
+    reach_phase(sim, ep, phase)
+    sim.log.append(f"phase {phase}: {ep.name} complete={ep.conn._handshake_complete} confirmed={ep.conn._handshake_confirmed}")
     sid = {sim.client.name: 0, sim.server.name: 1}
     if mode == "streams":
         # every stream-addressed frame type x stream lifecycle state, alone in a packet that carries a
